@@ -118,7 +118,14 @@ def regress(argv):
         sh(['git', '-C', '/repo', 'worktree', 'prune'])
         shutil.rmtree(base, ignore_errors=True)
     head = sh(['git', '-C', '/repo', 'rev-parse', 'HEAD'])[1].strip()
-    json.dump({'repo_head': head, 'results': results}, open(os.path.join(root, 'REGRESSION.json'), 'w'), indent=1, sort_keys=True)
+    out = os.path.join(root, 'REGRESSION.json')
+    if argv and os.path.exists(out):      # a partial run updates the entries it covers
+        old = json.load(open(out)).get('results', {})
+        old.update(results)
+        results_all = old
+    else:
+        results_all = results
+    json.dump({'repo_head': head, 'results': results_all}, open(out, 'w'), indent=1, sort_keys=True)
     bad = [k for k, v in results.items() if not v['as_expected']]
     print('%d seeds, %d not as expected: %s' % (len(results), len(bad), bad))
 
